@@ -87,6 +87,9 @@ PROPS = {
             {"engine": "E2", "module": "lib", "harness": "h_ifdata_empty_sequence", "functions": ["ifdata::parse_ifdata_item", "ifdata::parse_ifdata_taggedstruct"],
              "bound": "3 A2ML definitions whose sequence element can match zero tokens + one IF_DATA block: loading terminates", "timeout": 300, "extra_modules": ["tokenizer"], "max_steps": 600000},
         ] + [
+            {"engine": "E2", "module": "lib", "harness": "h_comment_layout_lineends", "msg_prefix": "C03", "functions": ["load_from_string", "tokenizer::tokenize_core", "tokenizer::count_newlines", "parser::ParserState::get_line_offset", "writer::Writer::add_group", "A2lFile::write_to_string"],
+             "bound": "block comment with 0..=3 inner line breaks x 0..=2 line breaks behind it x 3 positions (file head, in front of /begin MODULE, in front of /end MODULE) x line ends {LF, CRLF, CR} (108 documents)", "timeout": 300, "extra_modules": ["tokenizer"], "must_cover": ["comment_layout_end"]},
+        ] + [
             {"engine": "E2", "module": "lib", "harness": "h_ifdata_soup_%d" % n, "functions": ["load_from_string", "ifdata::parse_ifdata", "ifdata::parse_unknown_ifdata_start", "ifdata::parse_unknown_ifdata", "ifdata::parse_unknown_taggedstruct", "parser::get_string", "tokenizer::handle_a2ml"],
              "bound": "uninterpreted IF_DATA holding every %d-lexeme soup over {/begin B, /end B, ident, hex number, string, empty string, block comment, line comment, embedded A2ML section (raw text '\"' / 'x y')}, closed or cut off, strict and non-strict: loading returns, accepted text loads again" % n,
              "timeout": 300, "extra_modules": ["tokenizer"], "max_steps": 3000000, "quick": n <= 2, "msg_prefix": "C03"}
@@ -226,6 +229,9 @@ PROPS = {
             {"engine": "E2", "module": "lib", "harness": "h_ifdata_definitions", "msg_prefix": "C01", "functions": ["load_from_string", "tokenizer::handle_a2ml", "A2ml::stringify", "a2ml::GenericIfData::write", "A2lFile::write_to_string"],
              "bound": "5 A2ML definitions x {conforming, deviating IF_DATA} x {LF, CRLF}: reload equal, second write identical", "timeout": 400, "extra_modules": ["tokenizer"]},
         ] + [
+            {"engine": "E2", "module": "lib", "harness": "h_comment_layout_lineends", "msg_prefix": "C01", "functions": ["load_from_string", "tokenizer::tokenize_core", "tokenizer::count_newlines", "parser::ParserState::get_line_offset", "writer::Writer::add_group", "A2lFile::write_to_string"],
+             "bound": "block comment with 0..=3 inner line breaks x 0..=2 line breaks behind it x 3 positions (file head, in front of /begin MODULE, in front of /end MODULE) x line ends {LF, CRLF, CR} (108 documents)", "timeout": 300, "extra_modules": ["tokenizer"], "must_cover": ["comment_layout_end"]},
+        ] + [
             {"engine": "E2", "module": "lib", "harness": "h_ifdata_soup_%d" % n, "msg_prefix": "C01", "functions": ["load_from_string", "ifdata::parse_unknown_ifdata_start", "a2ml::GenericIfData::write", "A2lFile::write_to_string"],
              "bound": "every %d-lexeme soup inside an uninterpreted IF_DATA (see C03), strict and non-strict: whatever is accepted is written to text that loads again (known finding D20 excludes soups with a line comment that is not the last lexeme while it is listed)" % n,
              "timeout": 300, "extra_modules": ["tokenizer"], "max_steps": 3000000, "quick": n <= 2}
@@ -265,6 +271,8 @@ PROPS = {
              "bound": "0-2 blank lines before /end A2ML x 4 gaps inside an uninterpreted IF_DATA with two nested blocks, each from {space, LF, blank line, CRLF} (768 layouts)", "timeout": 600, "extra_modules": ["tokenizer"], "validate": 40, "quick": False},
             {"engine": "E2", "module": "lib", "harness": "h_layout_ifdata_small", "functions": ["load_from_string", "tokenizer::handle_a2ml", "ifdata::parse_unknown_taggedstruct", "a2ml::GenericIfData::write_item"],
              "bound": "0-2 blank lines before /end A2ML x 2 gaps (before /end INNER, before /end OUTER) from {space, LF, blank line, CRLF} (48 layouts)", "timeout": 400, "extra_modules": ["tokenizer"], "validate": 20},
+            {"engine": "E2", "module": "lib", "harness": "h_comment_layout_lineends", "msg_prefix": "C05", "functions": ["load_from_string", "tokenizer::tokenize_core", "tokenizer::count_newlines", "parser::ParserState::get_line_offset", "writer::Writer::add_group", "A2lFile::write_to_string"],
+             "bound": "block comment with 0..=3 inner line breaks x 0..=2 line breaks behind it x 3 positions (file head, in front of /begin MODULE, in front of /end MODULE) x line ends {LF, CRLF, CR} (108 documents)", "timeout": 300, "extra_modules": ["tokenizer"], "must_cover": ["comment_layout_end"]},
         ],
     },
     "C11": {
